@@ -547,6 +547,19 @@ func init() {
 		}
 	}
 	reg(md+"QuoInt", decQuoInt(false))
+	// ApproxSqrt of a CONSTANT: the library's own Newton iteration (cosmossdk.io/math v1.1.2 ApproxRoot, root 2) replayed on
+	// the raw 18-decimal integer. A symbolic argument is not modelled (the path is reported as not explored).
+	reg(md+"ApproxSqrt", func(e *Exec, s *State, f *Frame, x *ssa.Call, a []Val) ([]*State, bool) {
+		t, ok := e.bigs(s, a[0])
+		if !ok {
+			return nil, false
+		}
+		d, isC := new(big.Int).SetString(t[0], 10)
+		if !isC || d.Sign() < 0 {
+			panic("ApproxSqrt of a symbolic or negative value")
+		}
+		return ret(f, x, Tuple{BigV{T: approxSqrtRaw(d).String()}, IfaceV{}})
+	})
 	reg(md+"QuoInt64", decQuoInt(true))
 	chopTo := func(mode int, toDec bool, lim, msg string) intrinsic {
 		return func(e *Exec, s *State, f *Frame, x *ssa.Call, a []Val) ([]*State, bool) {
@@ -784,4 +797,35 @@ func (e *Exec) chop(s *State, t string, sg int, mode int) string {
 		res = tNeg(res)
 	}
 	return res
+}
+
+// approxSqrtRaw: LegacyDec.ApproxRoot(2) of cosmossdk.io/math v1.1.2 on raw 18-decimal integers (d >= 0)
+func approxSqrtRaw(d *big.Int) *big.Int {
+	one := new(big.Int).Exp(big.NewInt(10), big.NewInt(18), nil)
+	half := new(big.Int).Quo(one, big.NewInt(2))
+	sq := new(big.Int).Mul(one, one)
+	if d.Sign() == 0 || d.Cmp(one) == 0 {
+		return new(big.Int).Set(d)
+	}
+	guess, delta := new(big.Int).Set(one), new(big.Int).Set(one)
+	for iter := 0; new(big.Int).Abs(delta).Cmp(big.NewInt(1)) > 0 && iter < 300; iter++ {
+		prev := new(big.Int).Set(guess)
+		if prev.Sign() == 0 {
+			prev = big.NewInt(1)
+		}
+		q := new(big.Int).Mul(d, sq)
+		q.Quo(q, prev)
+		// chopPrecisionAndRound (banker's rounding), q >= 0
+		quo, rem := new(big.Int).QuoRem(q, one, new(big.Int))
+		switch c := rem.Cmp(half); {
+		case c > 0:
+			quo.Add(quo, big.NewInt(1))
+		case c == 0 && quo.Bit(0) == 1:
+			quo.Add(quo, big.NewInt(1))
+		}
+		delta = quo.Sub(quo, guess)
+		delta.Rsh(delta, 1)
+		guess.Add(guess, delta)
+	}
+	return guess
 }
